@@ -1,5 +1,5 @@
 (* Tie_cts_closures_ecb2.v -- semantic tie of a closure body of cts/src/*_cs*.rs (the code that runs inside
-   encrypt_with_backend / decrypt_with_backend) to the byte-granular model of coq/Cts.v; see Tie_cts_closures.v. *)
+   encrypt_with_backend / decrypt_with_backend) to the byte-granular model of coq/Cts.v; see Tie_cts_closures_cbc1.v. *)
 From BM Require Import Tie.TieLib Tie.ClosureLib Cts Cts_mem Cts_proofs Cts_spec Cts_cs_proofs Cts_dec_proofs Spec Spec_proofs BlockModes_proofs.
 From BMGen Require Import Src_cts.
 Local Open Scope string_scope.
